@@ -5,6 +5,7 @@ import (
 	"context"
 	"fmt"
 	"strings"
+	"verifharness/pref"
 
 	dproto "github.com/cloudwego/dynamicgo/proto"
 	pg "github.com/cloudwego/dynamicgo/proto/generic"
@@ -209,7 +210,138 @@ func (t ptarget) class() string {
 	return k + "@" + d + "-via-" + t.via
 }
 
+// c10PrefixBoundaries: edits inside sub-messages whose length prefix is 1, 2 or 3 bytes wide and edits that move it
+// across 127/128 and 16383/16384: unset of each field (first, middle, last on the wire), replacement of the padding
+// string by one of another length, insertion of the absent last field; one and two levels deep.
+func c10PrefixBoundaries(c *h.Ctx) {
+	const text = "syntax = \"proto3\";\noption go_package = \"verif/pb\";\nmessage In { string pad = 1; int32 a = 2; In deep = 7; bool z = 15; }\nmessage Root { int32 x = 1; In in = 2; string tail = 3; }\nservice Svc { rpc M(Root) returns (Root); }\n"
+	var pcached *PCompiled
+	c.Run("prefix-boundaries", c.N(1500, 40000), func(cs *h.Case) {
+		if pcached == nil {
+			fd, _, err := pref.Compile("verif.proto", map[string]string{"verif.proto": text})
+			if err != nil {
+				panic("harness: " + err.Error())
+			}
+			pcached = &PCompiled{Text: text, FD: fd, Root: fd.Messages().ByName("Root")}
+		}
+		pc := pcached
+		svc, err := dproto.NewDescritorFromContent(context.Background(), "verif.proto", text, nil)
+		if err != nil {
+			cs.Viol("pedit:parse", "err", err)
+			return
+		}
+		desc := svc.LookupMethodByName("M").Input()
+		lens := []int{0, 1, 100, 118, 119, 120, 121, 122, 123, 124, 125, 126, 127, 128, 129, 130, 200, 16370, 16378, 16380, 16381, 16382, 16383, 16384, 16390}
+		inMD := pc.FD.Messages().ByName("In")
+		mkIn := func(padLen int, withDeep bool) *dynamicpb.Message {
+			in := dynamicpb.NewMessage(inMD)
+			if padLen > 0 {
+				in.Set(inMD.Fields().ByName("pad"), protoreflect.ValueOfString(strings.Repeat("p", padLen)))
+			}
+			if cs.R.Chance(80) {
+				in.Set(inMD.Fields().ByName("a"), protoreflect.ValueOfInt32(int32(1+cs.R.Intn(100))))
+			}
+			if cs.R.Chance(70) {
+				in.Set(inMD.Fields().ByName("z"), protoreflect.ValueOfBool(true))
+			}
+			if withDeep {
+				d := dynamicpb.NewMessage(inMD)
+				d.Set(inMD.Fields().ByName("pad"), protoreflect.ValueOfString(strings.Repeat("d", lens[cs.R.Intn(18)])))
+				if cs.R.Bool() {
+					d.Set(inMD.Fields().ByName("z"), protoreflect.ValueOfBool(true))
+				}
+				if cs.R.Bool() {
+					d.Set(inMD.Fields().ByName("a"), protoreflect.ValueOfInt32(5))
+				}
+				in.Set(inMD.Fields().ByName("deep"), protoreflect.ValueOfMessage(d))
+			}
+			return in
+		}
+		m := dynamicpb.NewMessage(pc.Root)
+		rootF := pc.Root.Fields()
+		if cs.R.Bool() {
+			m.Set(rootF.ByName("x"), protoreflect.ValueOfInt32(9))
+		}
+		withDeep := cs.R.Chance(40)
+		in := mkIn(lens[cs.R.Intn(len(lens))], withDeep)
+		m.Set(rootF.ByName("in"), protoreflect.ValueOfMessage(in))
+		if cs.R.Bool() {
+			m.Set(rootF.ByName("tail"), protoreflect.ValueOfString("tail"))
+		}
+		b := PMarshal(m)
+		cs.Info("initial-len", len(b))
+		root := pg.NewRootValue(desc, append([]byte{}, b...))
+		// the message edited: in, or in.deep
+		tgt, prefix := in, []pg.Path{pg.NewPathFieldId(2)}
+		level := "sub"
+		if withDeep && cs.R.Bool() {
+			tgt = in.Get(inMD.Fields().ByName("deep")).Message().(*dynamicpb.Message)
+			prefix = append(prefix, pg.NewPathFieldId(7))
+			level = "subsub"
+		}
+		var log []string
+		for step := 0; step < 1+cs.R.Intn(3); step++ {
+			names := []string{"pad", "a", "z"}
+			fd := inMD.Fields().ByName(protoreflect.Name(names[cs.R.Intn(3)]))
+			path := append(append([]pg.Path{}, prefix...), pg.NewPathFieldId(dproto.FieldNumber(fd.Number())))
+			var opErr error
+			op := ""
+			switch {
+			case tgt.Has(fd) && cs.R.Chance(55) && c10Populated(tgt) > 1:
+				// (a sub-message emptied by an unset is removed by design; re-creating it through a nested path is
+				// outside the statement, so the last field is never unset)
+				op = "unset:" + string(fd.Name())
+				opErr = root.UnsetByPath(path...)
+				tgt.Clear(fd)
+			default:
+				var nv protoreflect.Value
+				switch fd.Name() {
+				case "pad":
+					nv = protoreflect.ValueOfString(strings.Repeat("q", 1+lens[cs.R.Intn(len(lens))]))
+				case "a":
+					nv = protoreflect.ValueOfInt32(int32(1 + cs.R.Intn(1<<20)))
+				default:
+					nv = protoreflect.ValueOfBool(true)
+				}
+				op = fmt.Sprintf("set:%s(present=%v,len=%d)", fd.Name(), tgt.Has(fd), len(nv.String()))
+				_, opErr = root.SetByPath(pScalarNode(fd, nv), path...)
+				tgt.Set(fd, nv)
+			}
+			log = append(log, op)
+			cs.Info("log", log)
+			cls := level + ":" + strings.SplitN(op, "(", 2)[0]
+			if opErr != nil {
+				cs.Viol("pedit:prefix:"+cls+":error", "err", opErr, "log", log)
+				return
+			}
+			out := root.Raw()
+			m2 := dynamicpb.NewMessage(pc.Root)
+			if uerr := PUnmarshal(out, m2); uerr != nil {
+				cs.Viol("pedit:prefix:"+cls+":rejected-by-reference", "err", uerr, "log", log, "out-len", len(out))
+				return
+			}
+			PNormEmpty(m2)
+			want := proto.Clone(m).(*dynamicpb.Message)
+			PNormEmpty(want)
+			if !proto.Equal(want, m2) {
+				cs.Viol("pedit:prefix:"+cls+":different-message", "log", log, "got", trunc(fmt.Sprint(m2)), "want", trunc(fmt.Sprint(want)))
+				return
+			}
+			cs.Cover("prefix_edit_ok")
+			cs.Cover("prefix_edit_ok_" + cls)
+		}
+		cs.Distinct(fmt.Sprintf("pb-%s-%d-%s", level, len(b)/64, strings.Join(log, ",")))
+	})
+}
+
+func c10Populated(m protoreflect.Message) int {
+	n := 0
+	m.Range(func(protoreflect.FieldDescriptor, protoreflect.Value) bool { n++; return true })
+	return n
+}
+
 func runC10(c *h.Ctx) {
+	defer c10PrefixBoundaries(c)
 	// ---- DOM load + marshal ------------------------------------------------------
 	c.Run("dom", c.N(3000, 100000), func(cs *h.Case) {
 		sc := gen.GenPSchema(cs.R, gen.PCfg{MaxDepth: 2, MaxFields: 6, Nested: cs.R.Bool(), Enums: true, BigNums: true,
@@ -295,7 +427,7 @@ func runC10(c *h.Ctx) {
 			return
 		}
 		desc := svc.LookupMethodByName("M").Input()
-		m := PGenMsg(cs.R, pc.Root, PValCfg{MaxElems: 4, MaxDepth: 3}, 0)
+		m := PGenMsg(cs.R, pc.Root, PValCfg{MaxElems: 4, MaxDepth: 3, LongStr: cs.R.Bool()}, 0)
 		b := PMarshal(m)
 		if cs.R.Chance(40) {
 			// field groups in the arbitrary order protobuf-go's default marshalling writes them
